@@ -103,7 +103,7 @@ fn run_history(tracer: &Tracer, cfg: &Cfg, ops: &[Value], storage: bool, tag: &V
     tracer.emit(json!({"ev":"end","listing":w.dir.listing(),"locks":w.dir.lock_files(),"managed":w.managed()}));
 }
 
-fn gen_history(rng: &mut StdRng, nops: usize, delete_all: bool, avoid_f0: bool, terms: &[&str]) -> Vec<Value> {
+fn gen_history(rng: &mut StdRng, nops: usize, delete_all: bool, avoid_f0: bool, terms: &[&str], terms_only: bool) -> Vec<Value> {
     let mut ops = vec![];
     let mut next_id = 1u64;
     // pending = operations issued since the last commit/rollback/new writer (for steering)
@@ -128,7 +128,7 @@ fn gen_history(rng: &mut StdRng, nops: usize, delete_all: bool, avoid_f0: bool, 
             if avoid_f0 && fresh_writer {
                 continue;
             }
-            let pred = match rng.random_range(0..10) {
+            let pred = match if terms_only { 0 } else { rng.random_range(0..10) } {
                 0..=5 => json!({"k":"term","t":pick(rng, terms)}),
                 6..=7 => {
                     let lo = rng.random_range(-3..8);
@@ -214,7 +214,7 @@ fn main() {
                 cfg.merge = if mp == "mix" { pick(&mut rng, &["none", "none", "log", "any2"]).to_string() } else { mp };
                 let so = a.get("sorted", "");
                 cfg.sorted = if so == "mix" { pick(&mut rng, &["", "", "v_asc", "v_desc"]).to_string() } else { so };
-                let ops = gen_history(&mut rng, nops, a.flag("delete-all"), avoid.contains("f0"), &["a", "b", "c"]);
+                let ops = gen_history(&mut rng, nops, a.flag("delete-all"), avoid.contains("f0"), &["a", "b", "c"], a.flag("term-deletes"));
                 run_history(&tracer, &cfg, &ops, storage, &json!({"seed":seed,"run":r}));
             }
         }
